@@ -650,6 +650,7 @@ static int32_t tls13WriteServerKeyShare(ssl_t *ssl,
             psDynBufUninit(&keyShareBuf);
             return rc;
         }
+        ssl->tls13HelloRetryRequestGroup = namedGroup;
     }
     else
     {
